@@ -135,7 +135,7 @@ pub fn default_params(dist: u8) -> Vec<f64> {
 fn is_bounds(dist: u8) -> bool {
     dist == DUNIF || dist == UNIFORM
 }
-fn is_discrete(dist: u8) -> bool {
+pub fn is_discrete(dist: u8) -> bool {
     matches!(dist, BERNOULLI | BINOMIAL | DUNIF | POISSON)
 }
 /// laws that keep helper sampler objects as fields
@@ -272,6 +272,25 @@ impl Obj {
             POISSON => Obj::Poisson(Poisson::new(p[0])),
             TDIST => Obj::T(T::new(p[0])),
             _ => Obj::Uniform(Uniform::new(p[0], p[1])),
+        })
+    }
+
+    /// `Default::default()` of the distribution — a constructor like `new`.
+    pub fn default_of(dist: u8) -> Result<Obj, String> {
+        catch(move || match dist {
+            BERNOULLI => Obj::Bernoulli(Bernoulli::default()),
+            BETA => Obj::Beta(Beta::default()),
+            BINOMIAL => Obj::Binomial(Binomial::default()),
+            CHISQ => Obj::ChiSquared(ChiSquared::default()),
+            DUNIF => Obj::DiscreteUniform(DiscreteUniform::default()),
+            EXPON => Obj::Exponential(Exponential::default()),
+            GAMMA => Obj::Gamma(Gamma::default()),
+            GUMBEL => Obj::Gumbel(Gumbel::default()),
+            NORMAL => Obj::Normal(Normal::default()),
+            PARETO => Obj::Pareto(Pareto::default()),
+            POISSON => Obj::Poisson(Poisson::default()),
+            TDIST => Obj::T(T::default()),
+            _ => Obj::Uniform(Uniform::default()),
         })
     }
 
